@@ -242,9 +242,15 @@ func cmdCheck(args []string) {
 		*prop, *tier, rep.Cov.Obligations, rep.Cov.Discharged, rep.Violations, len(rep.Known), rep.WallS)
 	if rep.EngineError != "" {
 		fmt.Println("govc: ENGINE ERROR:", rep.EngineError)
+		if !*keep {
+			os.RemoveAll(qdir) // os.Exit skips the deferred removal
+		}
 		os.Exit(3)
 	}
 	if rep.Violations > 0 {
+		if !*keep {
+			os.RemoveAll(qdir)
+		}
 		os.Exit(1)
 	}
 }
